@@ -151,7 +151,72 @@ def describe(c):
             + " ; schedule " + " ".join(map(str, c["sched"])))
 
 
-def run_mp(method, calls=12, hold=0.001, control=False):
+# exhaustive enumeration (thorough tier): ALL schedules of the given depth in which every
+# pick moves (a blocked pick is a no-op), each completed round-robin.  The set of threads
+# that can move after a prefix is reported by the driver (it is a fact about the real
+# code under the scheduler, not taken from the model).
+EXHAUSTIVE = [
+    # 2 callers (one queries the terminal) + 1 starter + the child's thread
+    ({"threads": [[1, 0, [["start", 10]]], [2, 0, [["call", 0, 0]]], [3, 0, [["call", 0, 1]]],
+                  [10, 10, [["call", 0, 0]]]]}, 11),
+    # re-entrant caller + caller + starter
+    ({"threads": [[1, 0, [["start", 10]]], [2, 0, [["call", 1, 0]]], [3, 0, [["call", 0, 0]]],
+                  [10, 10, [["call", 0, 1]]]]}, 9),
+    # two racing starters + a caller
+    ({"threads": [[1, 0, [["start", 10]]], [2, 0, [["start", 12]]], [3, 0, [["call", 0, 0]]],
+                  [10, 10, [["call", 0, 0]]], [12, 12, [["call", 0, 0]]]]}, 9),
+]
+
+
+def enumerate_schedules(base, depth):
+    level, runs = [[]], 0
+    for _ in range(depth):
+        cases = [dict(base, sched=p, completion_rounds=0) for p in level]
+        impl = core.run_impl_parallel("impl_c14.py", cases)
+        runs += len(cases)
+        nxt = []
+        for p, r in zip(level, impl):
+            if r.get("error"):
+                raise RuntimeError("driver: " + r["error"])
+            nxt += [p + [tid] for tid in r["enabled"]]
+        if not nxt:
+            break
+        level = nxt
+    return [dict(base, sched=p) for p in level], runs
+
+
+def with_sites():
+    """Source shape: every `with` over the terminal lock outside _process_start_wrapper must
+    acquire it twice (`with _tty_lock, _tty_lock:` or two nested withs) — the model's
+    `single = false`; the one-acquisition form is the variant refuted in Coq."""
+    import ast
+
+    path = os.path.join(str(core.REPO), "src", "term_image", "utils.py")
+    tree = ast.parse(open(path).read())
+    sites = []
+
+    def n_lock(w):
+        return sum(1 for it in w.items if isinstance(it.context_expr, ast.Name) and it.context_expr.id == "_tty_lock")
+
+    def visit(node, func, nested_in_lock_with):
+        for ch in ast.iter_child_nodes(node):
+            f = ch.name if isinstance(ch, (ast.FunctionDef, ast.AsyncFunctionDef)) else func
+            inner = False
+            if isinstance(ch, ast.With) and n_lock(ch):
+                k = n_lock(ch)
+                first = ch.body[0] if ch.body else None
+                if isinstance(first, ast.With) and n_lock(first) and len(ch.body) == 1:
+                    k += n_lock(first)
+                    inner = True
+                if not nested_in_lock_with:
+                    sites.append({"function": f, "line": ch.lineno, "acquisitions": k})
+            visit(ch, f, inner)
+
+    visit(tree, None, False)
+    return sites
+
+
+def run_mp(method, calls=12, hold=0.001, control=False, timeout=150):
     """real processes under a pty; returns (intervals or None, info)"""
     master, slave = pty.openpty()
     out = tempfile.NamedTemporaryFile(prefix="c14mp_", suffix=".json", delete=False)
@@ -163,7 +228,7 @@ def run_mp(method, calls=12, hold=0.001, control=False):
                               json.dumps(case), out.name], stdin=slave, stdout=slave, stderr=slave,
                              env=core.impl_env(), cwd="/", start_new_session=True)
         try:
-            rc = p.wait(timeout=150)
+            rc = p.wait(timeout=timeout)
         except subprocess.TimeoutExpired:
             try:
                 os.killpg(p.pid, 9)
@@ -202,17 +267,63 @@ def run_mp(method, calls=12, hold=0.001, control=False):
             pass
 
 
+def mp_plan(ctx):
+    plan = [("fork", False), ("spawn", False), ("spawn", True)]
+    if not ctx.quick:
+        plan += [("forkserver", False), ("fork", False), ("spawn", False)]
+    return plan
+
+
 def run(ctx):
     rng = ctx.rng
+    errors = []
+    extra = {}
+    exhaustive_info = []
+    mp_future = None
+    if ctx.replay and "case" not in ctx.replay.get("replay", {}):
+        # a real-process overlap: the recorded intervals are judged again
+        iv = [tuple(p) for p in ctx.replay["replay"].get("intervals", [])]
+        terms = [core.coq_list(iv, lambda p: "(%s, %s)" % (core.z(p[0]), core.z(p[1])))]
+        bad, errs = core.coq_shards("c14m", HEADER, terms, "list (Z * Z)", "stamps_bad cases", shard=10)
+        fails = [{"signature": ctx.replay.get("signature", "mp-overlap"),
+                  "what": "recorded enter/exit intervals of a lock_tty probe in real processes overlap",
+                  "replay": ctx.replay["replay"]}] if bad else []
+        return {"corr_name": "replay of recorded real-process intervals", "evaluations": 1, "distinct_nontrivial": 1,
+                "rule": "replay", "samples": [str(iv[:4])], "histogram": {}, "mismatches": [], "failures": fails,
+                "errors": errs, "assumptions": [], "trusted": []}
+    if not ctx.replay:
+        # supporting evidence, started first: real processes run while the schedules are replayed
+        from concurrent.futures import ThreadPoolExecutor
+
+        def one(mc):
+            try:
+                return run_mp(mc[0], calls=12 if ctx.quick else 40, control=mc[1], timeout=40 if ctx.quick else 150)
+            except Exception as e:  # evidence only: an infrastructure problem is never an alarm
+                return None, {"method": mc[0], "control": mc[1], "skipped": f"{type(e).__name__}: {e}"}
+
+        ex = ThreadPoolExecutor(max_workers=3)
+        mp_future = [ex.submit(one, mc) for mc in mp_plan(ctx)]
     if ctx.replay:
         cases = [ctx.replay["replay"]["case"]]
     else:
-        n = 260 if ctx.quick else 5000
+        n = 260 if ctx.quick else 3000
         cases = [dict(c) for c in CORPUS] + [gen_case(rng, 40 if i % 5 else 16) for i in range(n)]
-    codes, errors, impl, racy = evaluate(cases, want_racy=not ctx.replay)
+        if not ctx.quick:
+            for base, depth in EXHAUSTIVE:
+                try:
+                    more, runs = enumerate_schedules(base, depth)
+                except Exception as e:
+                    errors.append(f"exhaustive enumeration: {type(e).__name__}: {e}")
+                    continue
+                exhaustive_info.append({"threads": describe(dict(base, sched=[])).split(" ; ")[0], "depth": depth,
+                                        "schedules": len(more), "prefix_runs": runs})
+                cases += more
+    codes, errs, impl, racy = evaluate(cases, want_racy=not ctx.replay)
+    errors += errs
     mismatches, failures = [], []
     hist = {"root_threads": {}, "sched_len": {}, "events": {}, "starts": 0, "swaps": 0, "old_lock_then_new": 0,
-            "unfinished_after_completion": 0, "would_race_with_single_with": racy}
+            "unfinished_after_completion": 0, "would_race_with_single_with": racy,
+            "exhaustive": exhaustive_info}
     distinct = set()
     names = {1: "acquire", 2: "release", 3: "enter", 4: "exit", 5: "write", 6: "reply", 7: "swap", 8: "start"}
     for c, r in zip(cases, impl):
@@ -255,32 +366,35 @@ def run(ctx):
             })
         else:
             mismatches.append({"case": cases[i], "code": code, "observed": impl[i].get("log")})
-    extra = {}
+    # source shape of the other synchronized sites (they use the same two-item `with` inline)
+    try:
+        sites = with_sites()
+        hist["with_sites"] = sites
+        for st in sites:
+            if st["function"] != "_process_start_wrapper" and st["acquisitions"] < 2:
+                failures.append({
+                    "signature": core.sig(["with-shape", st["function"]]),
+                    "what": "utils.%s() takes the terminal lock with a single acquisition (`with _tty_lock:`): this is "
+                            "the variant refuted by C14_second_acquire_needed_refuted — a caller that read the old "
+                            "lock while Process.start() swaps it runs concurrently with the holder of the new lock"
+                            % st["function"],
+                    "replay": {"site": st, "case": RACE},
+                })
+    except Exception as e:
+        errors.append(f"with-shape scan: {type(e).__name__}: {e}")
     assumptions = [
         "atomicity grain: one read of the module global or one lock operation per step; the scheduler interleaves "
         "threads of all processes arbitrarily",
-        "Process.start() is never issued from inside a synchronized function (documented as unsupported)",
+        "Process.start() is never issued from inside a synchronized function (documented as unsupported); a process is "
+        "started at most once (Process.start refuses a second start)",
         "RLock semantics (threading and multiprocessing): re-entrant (owner, count), acquire blocks while owned by "
         "another thread; OS semaphores, pickling of the lock to children and multiprocessing start-up are trusted",
         "the terminal answers requests in FIFO order",
     ]
-    if not ctx.replay:
-        from concurrent.futures import ThreadPoolExecutor
-
-        plan = [("fork", False), ("spawn", False), ("spawn", True)]
-        if not ctx.quick:
-            plan += [("forkserver", False), ("fork", False), ("spawn", False)]
-
-        def one(mc):
-            try:
-                return run_mp(mc[0], calls=12 if ctx.quick else 40, control=mc[1])
-            except Exception as e:  # evidence only: an infrastructure problem is never an alarm
-                return None, {"method": mc[0], "control": mc[1], "skipped": f"{type(e).__name__}: {e}"}
-
-        with ThreadPoolExecutor(max_workers=3) as ex:
-            outs = list(ex.map(one, plan))
+    if mp_future is not None:
+        outs = [f.result() for f in mp_future]
         runs, infos = [], []
-        for (method, control), (iv, info) in zip(plan, outs):
+        for (method, control), (iv, info) in zip(mp_plan(ctx), outs):
             infos.append(info)
             if iv and not control:  # the control run is expected to overlap (no hand-over)
                 runs.append((method, iv))
@@ -298,7 +412,8 @@ def run(ctx):
                      "under the deterministic scheduler",
         "evaluations": len(cases),
         "distinct_nontrivial": len(distinct),
-        "rule": "corpus (incl. the hand-over race) + random cases: 2-4 root threads with 0-2 lock_tty calls each "
+        "rule": "corpus (incl. the hand-over race) + (thorough tier) ALL schedules of depth 11 / 9 / 9 in which every pick "
+                "moves, for three small thread systems (see histogram.exhaustive), each completed round-robin + random cases: 2-4 root threads with 0-2 lock_tty calls each "
                 "(re-entrancy depth 0-2, optional terminal round trip in the innermost body), one Process.start "
                 "(15%: two racing starts), a child process thread (30%: a second thread in the child, 30%: a "
                 "grandchild started by the child), the FIFO terminal as pseudo-thread 0; random schedule of depth "
